@@ -415,6 +415,10 @@ package util
 //@   ensures len(data) > 0 ==> spec_fresh(result) && len(result) >= len(data) + 1 && len(result) < len(data) + 1 + size   :room_for_the_count_and_the_data
 //@   ensures len(data) > 0 ==> int(result[0]) == len(result) - 1 - len(data)                                       :first_octet_counts_the_padding
 //@   ensures forall i :: 0 <= i && i < len(data) ==> result[1+i] == data[i]                                        :data_follows_unchanged
+// the length after padding, as the expression over the entry values (same term as the code computes: a change of
+// the padding rule fails here with a replayable counterexample)
+//@   property C10
+//@   ensures len(data) > 0 ==> len(result) == len(data) + 1 + (size - (len(data)+1)%size)%size                     :padded_length_formula
 //@ func unpadRecords
 //@   property C10, C12
 //@   safe
@@ -424,8 +428,14 @@ package util
 //@   ensures len(data) > 0 && int(data[0]) <= len(data) - 1 ==> len(result) == len(data) - 1 - int(data[0])       :strips_the_count_and_the_padding
 //@   ensures len(data) > 0 && int(data[0]) <= len(data) - 1 ==> (forall i :: 0 <= i && i < len(result) ==> result[i] == data[1+i])   :keeps_the_data
 
-// "the padded data is a whole number of records" is divisibility of a 64-bit remainder expression, which none of
-// the solvers decides in minutes: evaluated instead on the real code for every length 0..4096 (bounded)
+// "the padded data is a whole number of records": with the divisor a constant the divisibility is decided for every
+// length up to 2^40 (the bound on slice lengths in the encoding) as a heap-free lemma per record size; together with
+// padded_length_formula above this is the statement for all lengths. (With the divisor symbolic, inside
+// padToRecords' own query, no solver decides it within the limit.) The bounded evaluation below stays as a
+// cross-check of the composition with unpadRecords on the real code, lengths 0..4096.
+//@ property C10
+//@ lemma forall n int :: 0 < n && n <= 1<<40 ==> (n + 1 + (3 - (n+1)%3)%3) % 3 == 0            :padding_makes_whole_records_of_3
+//@ lemma forall n int :: 0 < n && n <= 1<<40 ==> (n + 1 + (14 - (n+1)%14)%14) % 14 == 0        :padding_makes_whole_records_of_14
 //@ go func specWholeRecords() bool {
 //@    for _, size := range []int{3, 14} {
 //@       for n := 0; n <= 4096; n++ {
